@@ -124,8 +124,13 @@ def execute_plan(engine, plan, prop, known, keep_trace=False):
                 ctx.fault('second-caller-thread.switches', D.switches)
             else:
                 ctx.probe('second-caller-thread-never-scheduled')
+            nskip = sum(1 for x in during if x == ('ok', 'skip'))
+            if nskip:
+                ctx.probe('second-caller-op-void-because-chain-was-reselected', nskip)
+            if len(during) > nskip:
+                ctx.probe('second-caller-ops-judged', len(during) - nskip)
             for o, x, y in zip(ops, during, alone):
-                if x != y:
+                if x != y and x != ('ok', 'skip'):
                     ctx.violate('%s.concurrent' % prop, 'a second caller thread working on objects of its own got %s for an operation (%s) that gives %s when run alone'
                                 % (_short(x), o['k'], _short(y)), op=o['k'])
                     break
@@ -237,8 +242,8 @@ def plan_for(engine, base, prop, tier, i):
     plan['index'] = i
     if pymode() == 'Threads':
         from . import duo
-        if prop in duo.DUO_OPS:
-            plan.setdefault('config', {})['duo'] = duo.duo_config(seed, prop)
+        if duo.applicable(prop, plan):
+            plan.setdefault('config', {})['duo'] = duo.duo_config(seed, prop, plan)
     return plan
 
 
